@@ -298,13 +298,13 @@ def h_attenuation(ex):
     p = tr.solutions[ex.case.get('sol', 0)]
     f1 = ex.real('f1', 1e6, 4e9)
     f2 = ex.real('f2', 1e6, 4e9)
-    ex.assume(f1 < f2)
+    ex.assume(f2 - f1 >= 1e3)         # distinct in float as well
     a1 = p.attenuation(ex.array([f1, f2, -f1]), dz=ex.case.get('dz', 2))
     for z, A in As.items():
         ex.assume(A(f1) <= A(f2))        # L(z, f) does not grow with f
     ex.lt(0.0, a1[0], 'attenuation>0')
     ex.le(a1[0], 1.0, 'attenuation<=1', tol=1e-12)
-    ex.le(a1[1], a1[0] if ex.twin != 'growing' else a1[0] - 0.1,
+    ex.le(a1[1], a1[0] if ex.twin != 'growing' else a1[0] - 2.0,
           'attenuation-does-not-grow-with-frequency', tol=1e-9)
     ex.close(a1[2], a1[0], 'attenuation-even-in-f', tol=0.0)
 
@@ -341,14 +341,14 @@ def h_attenuation_graded(ex):
     d['_static_attrs'] = ['from_point', 'to_point', 'theta0', 'ice', 'dz', 'direct']
     f1 = ex.real('f1', 1e6, 4e9)
     f2 = ex.real('f2', 1e6, 4e9)
-    ex.assume(f1 < f2)
+    ex.assume(f2 - f1 >= 1e3)         # distinct in float as well
     a1 = p.attenuation(ex.array([f1, f2, -f1]))
     ex.note('nodes=%d' % len(As))
     for z, A in As.items():
         ex.assume(A(f1) <= A(f2))
     ex.lt(0.0, a1[0], 'attenuation>0')
     ex.le(a1[0], 1.0, 'attenuation<=1', tol=1e-12)
-    ex.le(a1[1], a1[0] if ex.twin != 'growing' else a1[0] - 0.1,
+    ex.le(a1[1], a1[0] if ex.twin != 'growing' else a1[0] - 2.0,
           'attenuation-does-not-grow-with-frequency', tol=1e-9)
     ex.close(a1[2], a1[0], 'attenuation-even-in-f', tol=0.0)
 
@@ -393,7 +393,7 @@ HARNESSES = [
             cases={'quick': [{'bx': 3.0}, {'bx': 3.0, 'kmax': 1, 'sol': 1, 'dz': 4}],
                    'thorough': [{'bx': 3.0}, {'bx': 40.0, 'dz': 1}, {'bx': 3.0, 'kmax': 1, 'sol': 1, 'dz': 4},
                                 {'bx': 3.0, 'kmax': 1, 'sol': 2, 'dz': 4}]},
-            budget={'quick': {'wall_s': 300, 'query_timeout_ms': 90000}}),
+            budget={'quick': {'wall_s': 300, 'query_timeout_ms': 15000}}),
 ]
 
 _G = [{'cls': c, 'z': z, 'direct': dr, 'theta0': t}
@@ -403,7 +403,7 @@ _G = [{'cls': c, 'z': z, 'direct': dr, 'theta0': t}
 HARNESSES.append(
     Harness('attenuation-graded', h_attenuation_graded, _mods, encodes=_enc, twins=('growing',),
             cases={'quick': _G[:4], 'thorough': _G + [dict(g, dz=10.0) for g in _G]},
-            budget={'quick': {'wall_s': 300, 'query_timeout_ms': 90000}}))
+            budget={'quick': {'wall_s': 300, 'query_timeout_ms': 15000}}))
 
 BOUNDS = {
     'quick': {'signals': '2-3 samples symbolic in [-1,1]', 'attenuation': 'an arbitrary function '
